@@ -321,3 +321,71 @@ register(
             "unsafe fn slice_open_guard(path: *const c_char, create_if_missing: bool) -> *mut IndexHandle {"),
     suffix="  std::ptr::NonNull::<IndexHandle>::dangling().as_ptr()\n}",
 )
+
+# --------------------------------------------------------------------------
+# C09 / C10: the bounded top-k heap helpers of query/wand.rs, whole bodies, with
+# the heap parameter typed as the priority-queue model of /verif/models (std's
+# BinaryHeap with symbolic keys does not get through CBMC, DESIGN 8.2/8.8)
+# --------------------------------------------------------------------------
+register(
+    "wand_push_top_k",
+    file="searchlite-core/src/query/wand.rs",
+    start=r"^fn push_top_k\(heap: &mut BinaryHeap<Reverse<RankedDoc>>, doc: RankedDoc, k: usize\) \{",
+    include_start=False,
+    end=r"^\}",
+    prefix=("/// SLICE (regenerated from the current source on every run): the body of `push_top_k`.\n"
+            "#[allow(unused_variables, unused_mut)]\n"
+            "fn slice_push_top_k(heap: &mut crate::verif_models::BinaryHeap<Reverse<RankedDoc>>, doc: RankedDoc, k: usize) {"),
+    suffix="}",
+)
+
+register(
+    "wand_finalize_heap",
+    file="searchlite-core/src/query/wand.rs",
+    start=r"^fn finalize_heap\(heap: BinaryHeap<Reverse<RankedDoc>>\) -> Vec<RankedDoc> \{",
+    include_start=False,
+    end=r"^\}",
+    subst=[(r"\b(\w+)\.sort_by\(", r"crate::verif_models::sort_by(&mut \1, "),
+           (r"\b(\w+)\.sort_unstable_by\(", r"crate::verif_models::sort_by(&mut \1, ")],
+    subst_optional=True,
+    prefix=("/// SLICE (regenerated from the current source on every run): the body of `finalize_heap`\n"
+            "/// (std's slice sort replaced by the short stable sort model).\n"
+            "#[allow(unused_variables, unused_mut)]\n"
+            "fn slice_finalize_heap(heap: crate::verif_models::BinaryHeap<Reverse<RankedDoc>>) -> Vec<RankedDoc> {"),
+    suffix="}",
+)
+
+# --------------------------------------------------------------------------
+# C11: the bounded page heap helper of api/reader.rs (whole body)
+# --------------------------------------------------------------------------
+register(
+    "reader_push_ranked",
+    file="searchlite-core/src/api/reader.rs",
+    start=r"^fn push_ranked\(heap: &mut BinaryHeap<RankedHit>, hit: RankedHit, limit: usize\) \{",
+    include_start=False,
+    end=r"^\}",
+    prefix=("/// SLICE (regenerated from the current source on every run): the body of `push_ranked`.\n"
+            "#[allow(unused_variables, unused_mut)]\n"
+            "fn slice_push_ranked(heap: &mut crate::verif_models::BinaryHeap<RankedHit>, hit: RankedHit, limit: usize) {"),
+    suffix="}",
+)
+
+# --------------------------------------------------------------------------
+# C16 / C11: everything `PaginationCursor::decode` does before its per-chunk loop
+# (the length guard and the declaration of the fixed decode buffer).  The loop
+# itself does not get through symbolic execution as a whole (DESIGN 8.2), so the
+# guard is what keeps `bytes[i] = value` in bounds for over-long cursors.
+# --------------------------------------------------------------------------
+register(
+    "cursor_length_guard",
+    file="searchlite-core/src/api/reader.rs",
+    start=r"^\s*fn decode\(raw: &str\) -> Result<Self> \{",
+    include_start=False,
+    end=r"^\s*for \(i, chunk\) in raw\.as_bytes\(\)\.chunks_exact\(2\)\.enumerate\(\) \{",
+    prefix=("/// SLICE (regenerated from the current source): the statements of\n"
+            "/// `PaginationCursor::decode` before the per-chunk loop; returns the length of the\n"
+            "/// buffer the loop writes into (one byte per 2-byte chunk of `raw`).\n"
+            "#[allow(unused_variables, unused_mut)]\n"
+            "fn slice_cursor_length_guard(raw: &str) -> Result<usize> {"),
+    suffix="  Ok(bytes.len())\n}",
+)
